@@ -111,6 +111,15 @@ struct drv {
     struct cmb_condition cond;
     uint64_t pool_cap, buf_cap, oq_cap, pq_cap;
     uint64_t next_token;
+    /* a monitor saw something left behind by a finished call of p that might still resume p: the
+     * process now only runs sentinel waits, and a violation is reported only if one of them is disturbed */
+    struct {
+        bool active;
+        int confirmed;          /* violations reported while the sentinels ran */
+        char sig[200];
+        char detail[400];
+    } residue[MAXP];
+    uint64_t inert_residues;    /* residues whose sentinels all ended undisturbed */
 };
 
 extern struct drv D;
@@ -130,6 +139,7 @@ struct monitor {
 
 #define VFAIL(...) des_fail(__VA_ARGS__)
 void des_fail(const char *sig, const char *fmt, ...) __attribute__((format(printf, 2, 3)));
+void des_residue(int p, const char *sig, const char *fmt, ...) __attribute__((format(printf, 3, 4)));
 int des_pidx(const struct cmb_process *pp);
 const char *des_signame(int64_t s);
 bool des_in_guard(const struct cmb_resourceguard *g, int p);
